@@ -52,6 +52,21 @@ type Connection struct {
 	// Message queue for backpressure handling
 	messageQueue [][]byte
 	queueMu      sync.Mutex
+
+	// closed is closed (once) when the hub drops the connection. The send channel itself is
+	// never closed: room broadcasts, ws.broadcast from HTTP routes and Send run in goroutines
+	// of their own, and a send racing with a disconnect on a closed channel panics.
+	closed    chan struct{}
+	closeOnce sync.Once
+}
+
+// markClosed tells the write pump and blocked senders that the hub has dropped the connection.
+func (c *Connection) markClosed() {
+	c.closeOnce.Do(func() {
+		if c.closed != nil {
+			close(c.closed)
+		}
+	})
 }
 
 // RoutePattern returns the route pattern this connection matched
@@ -75,6 +90,7 @@ func NewConnection(id string, conn *websocket.Conn, hub *Hub) *Connection {
 		ID:           id,
 		conn:         conn,
 		send:         make(chan []byte, queueSize),
+		closed:       make(chan struct{}),
 		hub:          hub,
 		Data:         make(map[string]interface{}),
 		rooms:        make(map[string]bool),
@@ -163,13 +179,14 @@ func (c *Connection) WritePump() {
 
 	for {
 		select {
-		case message, ok := <-c.send:
+		case <-c.closed:
+			// The hub dropped the connection
 			c.conn.SetWriteDeadline(time.Now().Add(config.WriteWait))
-			if !ok {
-				// Hub closed the channel
-				c.conn.WriteMessage(websocket.CloseMessage, []byte{})
-				return
-			}
+			c.conn.WriteMessage(websocket.CloseMessage, []byte{})
+			return
+
+		case message := <-c.send:
+			c.conn.SetWriteDeadline(time.Now().Add(config.WriteWait))
 
 			w, err := c.conn.NextWriter(websocket.TextMessage)
 			if err != nil {
@@ -262,8 +279,12 @@ func (c *Connection) Send(message []byte) error {
 			fallthrough
 		default:
 			// Block until space is available or connection closes
-			c.send <- message
-			return nil
+			select {
+			case c.send <- message:
+				return nil
+			case <-c.closed:
+				return ErrConnectionClosed
+			}
 		}
 	}
 }
